@@ -6,7 +6,7 @@
    indexings, `unwrap`s and slices over abstract XML trees.  The full statement is REFUTED for the
    code as it stands; what holds is the guarded form [C25_partial]. *)
 From IronCalc Require Import Base.Prelude Xlsx.Skeleton Xlsx.SkeletonProofs Xlsx.Refutations
-  Generated.Witness_c25.
+  Generated.Witness_c25 Xlsx.EscapeSafe Xlsx.EscapeSafeProofs.
 
 (* the property at full strength (for the skeleton): no package makes the importer panic *)
 Definition C25_statement : Prop := forall p : pkg, load_skel p <> Panic.
@@ -117,3 +117,24 @@ Proof.
               (proj1 panics_comment_t_without_text))))))))).
 Qed.
 Print Assumptions C25_witnesses_violate_guard.
+
+(* ---- the `_xHHHH_` decoder of shared strings, t="str" values and cached formula strings ----
+   (shared_strings.rs decode_xlsx_escapes; its VALUE is Codec/XmlEscape.v [decode], C24).
+   Index safety of its byte cursor, for EVERY byte string with the shape of UTF-8 (any &str) and
+   every outcome of the hex conversion: the guard `i + 6 < len` makes `bytes[i]`, `bytes[i + 1]`,
+   `bytes[i + 6]` in range; `bytes[i + 1] = 'x'` and `bytes[i + 6] = '_'` put both ends of
+   `&s[i + 2..i + 6]` on character boundaries; `i += 7` and `i += c.len_utf8()` keep the cursor on
+   a character start, so `s[i..]` never splits a character. *)
+Theorem C25_decode_escapes_index_safe :
+  forall (bytes : list Z) (scalar_ok : list Z -> bool),
+  utf8_shape bytes -> decode_cursor bytes scalar_ok true <> Panic.
+Proof. exact decode_cursor_safe. Qed.
+Print Assumptions C25_decode_escapes_index_safe.
+
+(* the theorem is about THIS guard: with `i + 6 <= len` the same cursor panics on "batch_x2024"
+   (an escape look-alike cut off just before its closing '_'), a well-formed string *)
+Theorem C25_decode_escapes_off_by_one_guard_panics :
+  utf8_shape w_batch /\ decode_cursor w_batch (fun _ => true) false = Panic /\
+  decode_cursor w_batch (fun _ => true) true = Ok tt.
+Proof. exact (conj w_batch_shape (conj off_by_one_guard_panics code_guard_ok_on_witness)). Qed.
+Print Assumptions C25_decode_escapes_off_by_one_guard_panics.
